@@ -138,6 +138,15 @@ def run(F, want=None):
                 # keep the table's member order (the reviewed difference is oriented)
                 members.insert(g["members"].index(suf) if g["members"].index(suf) <= len(members) else len(members), entry)
         iid = "clones|%s" % g["name"]
+        if len(members) < 2 and lost and all("::{closure#" in suf for suf in g["members"]):
+            # the members were closures and fewer than two are left (a closure index that still resolves may by now be another closure
+            # of the same function), but the functions they were written in still exist: the copies were merged into one shared
+            # helper (nothing is left that could disagree)
+            parents = [suf.rsplit("::{closure#", 1)[0] for suf in lost]
+            if all(any(b.path.endswith(pp) and not b.is_closure() for b in F.bodies) for pp in parents):
+                r.inst(iid, "-", "exempt", nontrivial=False, note="the clones no longer exist as separate bodies (merged)")
+                n_groups += 1
+                continue
         if len(members) < 2:
             if F.config == "full":
                 r.inst(iid, "-", "violation")
